@@ -2871,4 +2871,66 @@ def comp_sibwrite(prop, tier, comp, work):
     return out
 
 
-RULES = {"R-FWD.array": comp_fwd_array, "R-FWD.functional": comp_fwd_functional, "R-UFUNC": comp_ufunc, "R-KSIB": comp_ksib, "R-SIMD": comp_simd, "R-CONSTBRANCH": comp_constbranch, "R-TRAITPROV": comp_traitprov, "R-MAYBE-DIV": comp_maybe_div, "R-OWN": comp_own, "R-EVAL": comp_eval, "R-EQSHAPE": comp_eqshape, "R-PAIR": comp_pair, "R-FOLD": comp_fold, "R-MEMCOPY": comp_memcopy, "R-AXISNORM": comp_axisnorm, "R-AXISNORM.simd": comp_axisnorm_simd, "R-UFWD.reduce": comp_ufwd_reduce, "R-PARAMUSE": comp_paramuse, "R-GETFN": comp_getfn, "R-MAYBE.broadcast": comp_maybe_bcast, "R-SIMDSIB": comp_simdsib, "R-EQLEN": comp_eqlen, "R-MAYBE.compare": comp_maybe_compare, "R-STICKYFAIL": comp_stickyfail, "R-SIMDATTR": comp_simdattr, "R-SIBWRITE": comp_sibwrite}
+# --------------------------------------------------------------------------------------------
+# R-REDAXIS (C17 / C08): sibling agreement inside one composing view - every reduction a view function composes
+# (reduce_* / sum / prod / mean / var / stddev / amax / amin / vector_norm / cumsum / cumprod / accumulate_*) is taken over the SAME
+# axis expression. softmax's maximum and its normalising sum, var's mean and its sum of squares, the mean and the variance of a
+# normalisation, the two norms and the dot product of cosine_similarity: each pair describes one set of slices. A reduction over
+# another axis (or over None) is a different function for inputs whose slices differ in level, even where the formula is
+# shift-invariant on paper (softmax with the global maximum underflows to 0/0 for slices far below it).
+# --------------------------------------------------------------------------------------------
+_RED_RE = re.compile(r"^(view::)?(reduce_\w+|sum|prod|mean|var|stddev|amax|amin|vector_norm|cumsum|cumprod|accumulate_\w+)$")
+
+def _split_top(s):
+    out, depth, cur = [], 0, ""
+    for ch in s:
+        if ch in "([{<":
+            depth += 1
+        elif ch in ")]}>":
+            depth -= 1
+        if ch == "," and depth == 0:
+            out.append(cur.strip()); cur = ""
+        else:
+            cur += ch
+    if cur.strip():
+        out.append(cur.strip())
+    return out
+
+def rule_redaxis(rows, prop):
+    findings, n, samples = [], 0, []
+    for r in rows:
+        if "fn" not in r or r.get("lambda") or not re.fullmatch(r"nmtools::view::\w+", r["fn"]):
+            continue
+        calls = [f for f in r["facts"] if f["k"] == "call" and _RED_RE.match(re.sub(r"<.*$", "", f["a"]))]
+        if len(calls) < 2:
+            continue
+        axes = []
+        for f in calls:
+            m = re.match(r"^[\w:<>]+\((.*)\)$", f["b"])
+            args = _split_top(m.group(1)) if m else []
+            axes.append(args[1] if len(args) > 1 else "(no axis argument)")
+        n += len(calls)
+        # the majority expression is the reference (ties: the first)
+        ref = max(axes, key=lambda a: (axes.count(a), -axes.index(a)))
+        for f, a in zip(calls, axes):
+            if a != ref:
+                findings.append(finding("R-REDAXIS", prop, r, f["b"][:160], "reduction over `%s` while the sibling reduction(s) of %s are taken over `%s`: the composed reductions describe different slices" % (a, r["fn"], ref), line=f["line"]))
+        if len(samples) < 3:
+            samples.append("R-REDAXIS %s: %s" % (r["fn"], " | ".join(f["a"] + " over " + a for f, a in zip(calls, axes))))
+    return findings, n, samples
+
+def comp_redaxis(prop, tier, comp, work):
+    t0 = time.time()
+    tu, nn = gen_umbrella(["nmtools/array/view"], work, "umb_ra.cpp")
+    rows, err, cmd = run_nmlint(tu, filters=["include/nmtools/array/view/"])
+    out = dict(broken=[], units=nn, functions=len(rows), cmd=cmd)
+    if err:
+        out["broken"].append(err); return out
+    f, inst, samples = rule_redaxis(rows, prop)
+    if inst == 0:
+        out["broken"].append("R-REDAXIS: no view function composing two reductions found (anchor vanished)")
+    out.update(findings=f, instances={"R-REDAXIS": inst}, evaluations=inst, distinct_nontrivial=inst - len(f), samples=samples, wall_s=round(time.time() - t0, 2))
+    return out
+
+
+RULES = {"R-FWD.array": comp_fwd_array, "R-FWD.functional": comp_fwd_functional, "R-UFUNC": comp_ufunc, "R-KSIB": comp_ksib, "R-SIMD": comp_simd, "R-CONSTBRANCH": comp_constbranch, "R-TRAITPROV": comp_traitprov, "R-MAYBE-DIV": comp_maybe_div, "R-OWN": comp_own, "R-EVAL": comp_eval, "R-EQSHAPE": comp_eqshape, "R-PAIR": comp_pair, "R-FOLD": comp_fold, "R-MEMCOPY": comp_memcopy, "R-AXISNORM": comp_axisnorm, "R-AXISNORM.simd": comp_axisnorm_simd, "R-UFWD.reduce": comp_ufwd_reduce, "R-PARAMUSE": comp_paramuse, "R-GETFN": comp_getfn, "R-MAYBE.broadcast": comp_maybe_bcast, "R-SIMDSIB": comp_simdsib, "R-EQLEN": comp_eqlen, "R-MAYBE.compare": comp_maybe_compare, "R-STICKYFAIL": comp_stickyfail, "R-SIMDATTR": comp_simdattr, "R-SIBWRITE": comp_sibwrite, "R-REDAXIS": comp_redaxis}
